@@ -21,10 +21,14 @@ def load_grammar(rs, scratch, skip_brute=False, skip_case=False, folder="Grammar
     return g
 
 
-def full_stream(pcfg, save_config=None, cap=5000, check_heap=True):
-    """Pop until exhaustion.  Returns (items, heap_problems, capped)."""
+def full_stream(pcfg, save_config=None, cap=5000, check_heap=True, queue_size=None):
+    """Pop until exhaustion.  Returns (items, heap_problems, capped).
+    queue_size: value given to the queue's existing attribute max_queue_size (the size above which the queue is meant
+    to be trimmed one day; unused by the code as it is) - whatever the queue does about its size, the stream must not change."""
     from lib_guesser.priority_queue import PcfgQueue
     q = PcfgQueue(pcfg, save_config)
+    if queue_size is not None and hasattr(q, "max_queue_size"):
+        q.max_queue_size = queue_size
     items = []
     problems = []
     while len(items) < cap:
